@@ -142,7 +142,7 @@ def task(W, payload):
                 continue
             n_ = len(op["strata"])
             if k >= 2 and r.random() < 0.7:
-                shares = r.choice({1: [[Fr(1)]], 2: [[Fr(1, 2), Fr(1, 2)], [Fr(1, 4), Fr(3, 4)]], 3: [[Fr(1, 2), Fr(1, 4), Fr(1, 4)], [Fr(1, 8), Fr(5, 8), Fr(1, 4)]]}[n_])
+                shares = r.choice({1: [[Fr(1)]], 2: [[Fr(1, 2), Fr(1, 2)], [Fr(1, 4), Fr(3, 4)], [Fr(1), Fr(0)]], 3: [[Fr(1, 2), Fr(1, 4), Fr(1, 4)], [Fr(1, 8), Fr(5, 8), Fr(1, 4)], [Fr(1, 2), Fr(0), Fr(1, 2)]]}[n_])   # (a share of exactly 0 is a legal adjustment)
                 op.setdefault("flow_adj", []).append({"flow": "repl", "adjs": [[s_, ["ovr", {"c": q(w / k)}]] for s_, w in zip(op["strata"], shares)]})
                 prog["meta"]["feat"]["repl:overwritten_by_later_stratification"] = prog["meta"]["feat"].get("repl:overwritten_by_later_stratification", 0) + 1
             k *= n_
